@@ -164,7 +164,13 @@ fn table_fields(g: &Grammar, table: &LRTable) -> String {
             Some(l) => list(l.iter(), |x| x.to_string()),
             None => "[]".to_string(),
         },
-        table.get_conflicts().len()
+        // cells holding more than one action (get_conflicts() is partial: it cannot
+        // describe a pair involving ACCEPT)
+        table
+            .states
+            .iter()
+            .map(|s| s.actions.iter().filter(|a| a.len() > 1).count())
+            .sum::<usize>()
     );
     let _ = write!(
         o,
